@@ -18,13 +18,14 @@ import (
 	"testing"
 
 	"github.com/rs/zerolog"
+	"github.com/rs/zerolog/journald"
 	"pgregory.net/rapid"
 	"verif/harness/cborref"
 	"verif/harness/ev"
 	"verif/harness/lp"
 )
 
-const rule = "cases = byte strings: every 1-2 byte string and 3-byte strings (sampled in quick, all in thorough) alone and followed by a valid tail; structure-aware random CBOR with lying lengths / reserved additional info / misplaced breaks / wrong tag contents / deep nesting; mutations of valid logger output; every cut point of valid multi-event streams. Entry points: Cbor2JsonManyObjects, DecodeIfBinaryToBytes/String, ConsoleWriter.Write. oracle = call returns, no panic escapes, bytes allocated <= 64KiB + 64*len(input), prefix stability. non-trivial = input reaches a length-prefixed read, a tag handler or nesting depth >= 2 (header scan); distinct = FNV-64 of the input, enumerations by construction"
+const rule = "cases = byte strings: every 1-2 byte string and 3-byte strings (sampled in quick, all in thorough) alone and followed by a valid tail; structure-aware random CBOR with lying lengths / reserved additional info / misplaced breaks / wrong tag contents / deep nesting; mutations of valid logger output; every cut point of valid multi-event streams. Entry points: Cbor2JsonManyObjects, DecodeIfBinaryToBytes/String, ConsoleWriter.Write, journald writer's Write (no journal socket in the sandbox: decoding and field conversion run, the send fails). oracle = call returns, no panic escapes, bytes allocated <= 64KiB + 64*len(input), prefix stability. non-trivial = input reaches a length-prefixed read, a tag handler or nesting depth >= 2 (header scan); distinct = FNV-64 of the input, enumerations by construction"
 
 var rec = ev.New("C17", rule)
 
@@ -100,6 +101,10 @@ func call(f func()) (panicked string) {
 
 var console = zerolog.ConsoleWriter{Out: io.Discard, NoColor: true}
 
+// journal decodes the binary event and hands it to the journal socket, which does not exist in
+// the sandbox: Write fails after the decoding and field conversion this check is about
+var journal = journald.NewJournalDWriter()
+
 // checkInput exercises every entry point on in. Returns "" or what failed.
 func checkInput(in []byte, withConsole bool) *failure {
 	if sidePath != "" && dangerous(in) {
@@ -134,6 +139,9 @@ func checkInput(in []byte, withConsole bool) *failure {
 	if withConsole {
 		if p := call(func() { console.Write(in) }); p != "" {
 			return &failure{"ConsoleWriter.Write", hex.EncodeToString(in), p}
+		}
+		if p := call(func() { journal.Write(in) }); p != "" {
+			return &failure{"journald Write", hex.EncodeToString(in), p}
 		}
 	}
 	if sidePath != "" && dangerous(in) {
